@@ -16,6 +16,8 @@ package main
 //   jsfront <id>                                   \t ok <VIR of the real GenerateAST> | err \t ok
 //   defschemas <id>.fe <VIR of the real output>    \t ok                                  \t ok
 //   jsfdoc <id> <id>.fe <doc sexp>                 \t valid=<bool> doc=<kind>             \t ok
+//   jsfkeeps <id> <id>.fe                          \t -                                   \t ok   (C10 / keeps instances)
+//   jsfc08 <id> <id>.fe <doc sexp>                 \t -                                   \t ok   (C08 instances)
 //   -                                              \t skip <id> <reason>                  \t ok
 //
 // `valid` is the verdict of the compiled schema itself (santhosh-tekuri `Schema.Validate`), for lab
@@ -515,6 +517,18 @@ var c01FrontPinned = []frontPinned{
 	// witness of C01_jsonschema_parser_sound_counterexample (lean/Cog/Props/C01.lean: `cxDefs`, `cxDoc`)
 	{"pinint64", `{"$schema": "http://json-schema.org/draft-07/schema#", "$ref": "#/definitions/R", "definitions": {"R": {"type": "integer"}}}`,
 		[]string{`9223372036854775808`, `9223372036854775807`, `-9223372036854775808`, `1.0`, `1.5`}},
+	{"pinflat", `{"$schema": "http://json-schema.org/draft-07/schema#", "$ref": "#/definitions/R", "definitions": {
+	  "R": {"type": "object", "additionalProperties": false, "required": ["code", "n"], "properties": {
+	    "code": {"type": "string", "minLength": 2, "maxLength": 4, "default": "ab"},
+	    "flag": {"type": "boolean", "default": true},
+	    "k": {"type": "string", "const": "fixed"},
+	    "n": {"type": "integer", "minimum": 1, "maximum": 10, "default": 3},
+	    "pm": {"type": "string", "pattern": "^math$"},
+	    "r": {"type": "number", "exclusiveMinimum": 0.5, "exclusiveMaximum": 7.25, "default": 1.5},
+	    "z": {"type": "integer", "default": 0}
+	  }}}}`,
+		[]string{`{"code":"abc","n":1}`, `{"code":"a","n":1}`, `{"code":"abcde","n":11,"r":0.5}`, `{"code":"ab","n":0,"r":7.25,"flag":false}`,
+			`{"code":"ab","n":5,"r":7,"k":"fixed","pm":"math","z":4,"flag":true}`, `{"code":"abcdefgh","n":-3,"r":100}`}},
 	{"pinenumempty", `{"$schema": "http://json-schema.org/draft-07/schema#", "type": "object", "properties": {"e": {"enum": []}}}`, nil},
 	{"pintuple", `{"$schema": "http://json-schema.org/draft-07/schema#", "type": "object", "properties": {"l": {"type": "array", "items": [{"type": "string"}, {"type": "integer"}]}}}`, nil},
 	{"pinbadtype", `{"$schema": "http://json-schema.org/draft-07/schema#", "type": "object", "properties": {"l": {"type": "frob"}}}`, nil},
@@ -578,10 +592,13 @@ func c01FrontEmit(out *bufio.Writer, c frontCase, hist map[string]int) {
 	}
 	vir := virSchemas(ast.Schemas{real})
 	fmt.Fprintf(out, "jsfront %s\tok %s\tok\n", c.ID, vir)
-	if len(c.Docs) == 0 {
-		return
-	}
 	fmt.Fprintf(out, "defschemas %s.fe %s\tok\tok\n", c.ID, vir)
+	// instances of keeps_property and of the C10 compositions on the REAL front-end IR (lean/Cog/Drv/KeepsDrv.lean)
+	fmt.Fprintf(out, "jsfkeeps %s %s.fe\t-\tok\n", c.ID, c.ID)
+	for _, d := range c.Docs {
+		// instances of the C08 composition: every sub-document at a flat object definition
+		fmt.Fprintf(out, "jsfc08 %s %s.fe %s\t-\tok\n", c.ID, c.ID, d.Doc.sexp())
+	}
 	for _, d := range c.Docs {
 		valid := compiled.Validate(d.Doc.toAny(true)) == nil
 		verdict := "ok"
